@@ -113,6 +113,13 @@ class ExecInstruction(MichelsonInstruction, prim='EXEC'):
         return cls(item)
 
 
+def strip_type_annots(type_expr):
+    # Tezos unparses the captured type without annotations
+    if isinstance(type_expr, dict):
+        return {k: [strip_type_annots(a) for a in v] if k == 'args' else v for k, v in type_expr.items() if k != 'annots'}
+    return type_expr
+
+
 class ApplyInstruction(MichelsonInstruction, prim='APPLY'):
     @classmethod
     def execute(cls, stack: MichelsonStack, stdout: List[str], context: AbstractContext):
@@ -124,7 +131,9 @@ class ApplyInstruction(MichelsonInstruction, prim='APPLY'):
 
         new_value = MichelineSequence.create_type(
             args=[
-                PushInstruction.create_type(args=[left_type, left.to_literal()]),
+                PushInstruction.create_type(
+                    args=[MichelsonType.match(strip_type_annots(left_type.as_micheline_expr())), left.to_literal()]
+                ),
                 PairInstruction,
                 lambda_.value,
             ]
